@@ -34,7 +34,11 @@ def run(tier):
     wd = vlib.workdir(PROP)
     vlib.build(["hadv"])
     quick = tier == "quick"
-    st = adv.run_family(rep, wd, plan(quick), PROP, vlib.seed(), {"C05"}, shards=14)
+    # a dealer whose polynomial has the wrong degree but whose shares are consistent with it (state-level deviation)
+    dealers = [{"kind": "dealercheat", "proto": p, "n": 3, "t": 1, "byz": b, "alt": a, "sched": vlib.seed() * 5 + i}
+               for i, (p, b, a) in enumerate((p, b, a) for p in ("frost-keygen", "frost-refresh", "taproot-keygen", "taproot-refresh")
+                                             for b in ("a", "b", "c") for a in ("plus", "minus"))]
+    st = adv.run_family(rep, wd, plan(quick), PROP, vlib.seed(), {"C05"}, shards=14, extra_scen=dealers)
     rep.cov.update({"distinct_nontrivial": st["distinct"], "states": st["states"], "transitions": st["transitions"],
                     "traces_validated_against_impl": st["traces"], "trace_lines": st["lines"], "catalogue_cases": st["catalogue"],
                     "scenarios_applicable": st["applicable"], "scenarios_reached": st["reached"],
